@@ -584,4 +584,29 @@ Section Graph.
     destruct graph_root_first as (tl & En).
     eapply covered_intro; eauto. rewrite En. auto.
   Qed.
+
+  (* the same, read off the graph alone: if the package of d has a node, the edge is there and
+     the node is admitted by d under the provider's matching *)
+  Lemma covered_graph i v d :
+    covered i v d ->
+    forall j w, nth_error (g_nodes g) j = Some w -> vk_name w = rq_name d ->
+      In (i, j, rq_ver d, rq_type d) (g_edges g) /\
+      exists l, (MV (rq_key d) = Ok l \/ MVP (rq_key d) = Ok l) /\ In w l.
+  Proof.
+    intros (c' & w0 & Gc & Hd & Gw & Hc & He) j w Hj Nw.
+    destruct build_graph_facts as (c0 & A & _ & _).
+    pose proof (nth_error_In _ _ Hj) as Hin.
+    destruct (ids_of_find _ _ (an_nodup _ _ _ A) Hin) as (k & Gk & Hk).
+    assert (k = j) by (eapply nodup_nth_name; eauto; apply (an_nodup _ _ _ A)). subst k.
+    rewrite Nw in Gk. split; auto.
+    assert (w = w0).
+    { apply pinned_unique; [eapply an_rootish; eauto | right | ].
+      - unfold pinned. rewrite (pin_name _ _ Gw). auto.
+      - rewrite (pin_name _ _ Gw). auto. }
+    subst w0.
+    destruct (inv_crit _ _ _ _ _ _ _ _ _ _ HI _ _ Gc) as [A1 _ _ _ _].
+    assert (Hr : In d (reqs_of c')) by (unfold reqs_of; apply in_map_iff; exists (d, v); auto).
+    destruct (A1 _ Hc _ Hr) as (l & Gl & Hl). exists l. split; auto.
+    unfold gm in Gl. destruct (ANYPRE (reqs_of c')); auto.
+  Qed.
 End Graph.
